@@ -23,6 +23,7 @@ fn models(tier: Tier) -> Vec<Model> {
             v.extend(gen::m5(0).into_iter().step_by(5));
             v.extend(gen::m7(0).into_iter().step_by(11));
             v.extend(gen::m8(0).into_iter().step_by(9));
+            v.extend(gen::m9(0));
             v.extend(gen::m2(0).into_iter().step_by(997));
         }
         Tier::Thorough => {
@@ -31,6 +32,7 @@ fn models(tier: Tier) -> Vec<Model> {
             v.extend(gen::m5(1).into_iter().step_by(2));
             v.extend(gen::m7(1).into_iter().step_by(2));
             v.extend(gen::m8(1).into_iter().step_by(1));
+            v.extend(gen::m9(1));
             v.extend(gen::m2(1).into_iter().step_by(1999));
             v.extend(gen::m1(1).into_iter().step_by(401));
         }
@@ -88,7 +90,13 @@ impl Property for C07 {
         let mut idx = 0u64;
         for model in &ms {
             let mut sols: Option<Vec<Vec<i32>>> = None;
+            // the larger models of M9: in the quick tier only the learning configurations without
+            // restarts / with restarts after every conflict (all nogood database variants)
+            let heavy = tier.quick() && model.space_size() > 1500;
             for cfg in &cfgs {
+                if heavy && !(cfg.uip && matches!(cfg.restart, RestartCfg::None | RestartCfg::Luby1)) {
+                    continue;
+                }
                 for br in &brs {
                     let my = idx;
                     idx += 1;
